@@ -48,6 +48,12 @@ type Oblig struct {
 
 type genErr struct{ msg string }
 
+type inlineRet struct {
+	guard   string
+	results []Val
+	st      *State
+}
+
 func (fg *FG) fail(f string, a ...interface{}) {
 	panic(genErr{fmt.Sprintf(f, a...)})
 }
@@ -116,6 +122,11 @@ type FG struct {
 	retCount int
 	pureAxiomDone map[string]bool
 	ranges []*ssa.Range
+	namePrefix string
+	inlineEntry *State
+	inlineRets  *[]inlineRet
+	inlineDepth int
+	ninline int
 }
 
 func newFG(g *Gen, fn *ssa.Function, c *Contract) *FG {
@@ -344,7 +355,11 @@ func (fg *FG) havocHeap(st *State, family string) string {
 
 func (fg *FG) fieldFamily(structTy types.Type, st *types.Struct, i int) (string, string) {
 	sn := fg.sorts.structSortName(structTy)
-	fam := "F_" + strings.TrimPrefix(sn, "S_") + "_" + sanitize(st.Field(i).Name())
+	fname := st.Field(i).Name()
+	if fname == "_" {
+		fname = fmt.Sprintf("_%d", i)
+	}
+	fam := "F_" + strings.TrimPrefix(sn, "S_") + "_" + sanitize(fname)
 	fg.heapTy[fam] = st.Field(i).Type()
 	return fam, "(Array Int " + fg.sorts.sortOf(st.Field(i).Type()) + ")"
 }
